@@ -80,6 +80,21 @@ func init() {
 		"(*log.Logger).SetOutput": noop,
 		"(*log.Logger).SetFlags":  noop,
 
+		"time.Sleep": iSleep,
+		"time.Now": func(m *machine, fr *frame, args []value) value {
+			return zero(m.w.prog.ImportedPackage("time").Type("Time").Type())
+		},
+		"time.Since":                  func(m *machine, fr *frame, args []value) value { return int64(0) },
+		"(*sync.Mutex).Lock":          iMutexLock,
+		"(*sync.Mutex).Unlock":        iMutexUnlock,
+		"context.WithValue":           iContextWithValue,
+		"context.Background":          func(m *machine, fr *frame, args []value) value { return m.ctxValue(&ctxState{}) },
+		"(*bytes.Buffer).WriteTo":     iBufferWriteTo,
+		"(*bytes.Buffer).String":      iBufferString,
+		"(*bytes.Buffer).Len":         iBufferLen,
+		"(*bytes.Buffer).WriteString": iBufferWriteString,
+		"runtime.Gosched":             noop,
+
 		"math.Float64bits": func(m *machine, fr *frame, args []value) value {
 			switch x := args[0].(type) {
 			case float64:
